@@ -22,9 +22,14 @@
 //! output) and re-run on every engine, so that the signature names the
 //! expression that really fails (`<root cause>/<engines>`) and not a
 //! neighbour; the root cause comes from `vdesign::findings::classify`.
+//!
+//! Sub-check `recorded`: reproducers of listed findings as text + vectors +
+//! expected values (`/verif/known/C18/*.json`), independent of the generator.
 
+use num_bigint::BigUint;
+use num_traits::Zero;
 use std::collections::{BTreeMap, BTreeSet};
-use vcore::{CaseCfg, Ctx, Draw, Outcome, hash_str, json};
+use vcore::{CaseCfg, Ctx, Draw, Outcome, Value, hash_str, json};
 use vdesign::findings;
 use vdesign::*;
 use veryl_simulator::Config;
@@ -39,35 +44,33 @@ impl Engines {
         let (fast, cc) = engine_configs();
         Engines { fast, cc }
     }
+    pub fn all(&self) -> Vec<Config> {
+        self.fast.iter().chain(self.cc.iter()).cloned().collect()
+    }
 }
 
-/// engine family of a config label: `interp`, `jit`, `cc` (+`4st`)
-fn family(label: &str) -> String {
+/// engine family of a config label: `interp`, `jit`, `cc` (+`4` for 4-state)
+pub fn family(label: &str) -> String {
     let base = label.split('+').next().unwrap_or(label).to_string();
     if label.contains("4st") { format!("{base}4") } else { base }
 }
 
-/// Result of comparing every engine with the reference on one design.
+/// Result of comparing every engine with the expected values on one text.
 #[derive(Default)]
 pub struct Verdict {
-    /// output index → engine labels that disagree with the reference (or `!`-suffixed when the engine failed to run)
+    /// output index → engine labels that disagree
     pub fails: BTreeMap<usize, BTreeSet<String>>,
     /// engine errors / panics that hit the whole design: label → message
     pub errors: BTreeMap<String, String>,
-    /// first disagreement per (output, engine): description
+    /// first disagreement per (output, engine)
     pub details: Vec<String>,
     pub compared: u64,
     pub unknown: u64,
     pub skipped_4state_x: u64,
     pub comptime_blind: u64,
-    pub jit_compiled: bool,
 }
 
-fn hex(v: &num_bigint::BigUint) -> String {
-    format!("{v:x}")
-}
-
-fn run_engine(a: &Analyzed, c: &Config, stim: &Stimulus) -> Result<Trace, String> {
+pub fn run_engine(a: &Analyzed, c: &Config, stim: &Stimulus) -> Result<Trace, String> {
     match std::panic::catch_unwind(std::panic::AssertUnwindSafe(|| a.run("Top", c, stim))) {
         Ok(r) => r,
         Err(e) => {
@@ -83,9 +86,13 @@ fn run_engine(a: &Analyzed, c: &Config, stim: &Stimulus) -> Result<Trace, String
     }
 }
 
-/// Compare all `configs` and the compile-time evaluation (vector `ct_vec`)
-/// with the reference.
-pub fn judge(design: &Design, text: &str, stim: &Stimulus, rt: &RefTrace, configs: &[Config], ct_vec: Option<usize>, ct_skip: &[bool]) -> Result<Verdict, Rejected> {
+/// `expected[step][output]`: `None` = unknown (X in SystemVerilog).
+pub type Expected = Vec<Vec<Option<BigUint>>>;
+
+/// Compare all `configs` — and compile-time evaluation when `ctext` (the
+/// text with vector `ct_vec` substituted as constants) is given — with the
+/// expected values.
+pub fn judge_text(text: &str, ctext: Option<&str>, stim: &Stimulus, expected: &Expected, configs: &[Config], ct_vec: usize, ct_skip: &[bool]) -> Result<Verdict, Rejected> {
     let a = Analyzed::new(text)?;
     let mut v = Verdict::default();
     for c in configs {
@@ -95,29 +102,21 @@ pub fn judge(design: &Design, text: &str, stim: &Stimulus, rt: &RefTrace, config
                 v.errors.insert(label, e);
             }
             Ok(t) => {
-                if c.use_jit && t.jit_stats.0 > 0 {
-                    v.jit_compiled = true;
-                }
                 if c.use_4state && t.any_xz {
                     v.skipped_4state_x += 1;
                     continue;
                 }
-                for (si, (row, rrow)) in t.steps.iter().zip(&rt.steps).enumerate() {
+                for (si, (row, rrow)) in t.steps.iter().zip(expected).enumerate() {
                     for (oi, (s, r)) in row.iter().zip(rrow).enumerate() {
-                        if r.x {
+                        let Some(r) = r else {
                             v.unknown += 1;
                             continue;
-                        }
+                        };
                         v.compared += 1;
-                        if s.value != r.v {
+                        if s.value != *r {
                             let set = v.fails.entry(oi).or_default();
                             if set.insert(label.clone()) {
-                                v.details.push(format!(
-                                    "{label}: output {} after vector {si}: engine {} reference {}",
-                                    stim.outputs[oi].name,
-                                    hex(&s.value),
-                                    hex(&r.v)
-                                ));
+                                v.details.push(format!("{label}: output {} after vector {si}: engine {:x} reference {:x}", stim.outputs[oi].name, s.value, r));
                             }
                         }
                     }
@@ -125,21 +124,16 @@ pub fn judge(design: &Design, text: &str, stim: &Stimulus, rt: &RefTrace, config
             }
         }
     }
-    if let Some(vi) = ct_vec {
-        // compile-time evaluation of the same expressions
-        let (ins, outs) = port_specs(design);
-        let values: Vec<(DeclId, num_bigint::BigUint)> = ins.iter().map(|(id, _)| *id).zip(stim.steps[vi].values.iter().cloned()).collect();
-        let cd = constify(design, &values);
-        let ctext = print_design(&cd);
-        match Analyzed::new(&ctext) {
+    if let Some(ctext) = ctext {
+        match Analyzed::new(ctext) {
             Err(r) => {
                 // an unguarded dynamic select becomes a static out-of-range
                 // select once its index is a constant: outside the domain
-                let oor = r.errors.iter().all(|e| e.0 == "InvalidSelect") && rt.steps[vi].iter().any(|x| x.x);
+                let oor = r.errors.iter().all(|e| e.0 == "InvalidSelect") && expected[ct_vec].iter().any(|x| x.is_none());
                 if oor {
                     v.comptime_blind += 1;
                 } else {
-                    v.errors.insert("comptime".into(), format!("constant form rejected: {r}\n{ctext}"));
+                    v.errors.insert("comptime".into(), format!("constant form rejected: {r}"));
                 }
             }
             Ok(ca) => {
@@ -147,37 +141,33 @@ pub fn judge(design: &Design, text: &str, stim: &Stimulus, rt: &RefTrace, config
                     clock: None,
                     reset: None,
                     inputs: vec![],
-                    outputs: outs.iter().map(|x| x.1.clone()).collect(),
+                    outputs: stim.outputs.clone(),
                     steps: vec![StimStep {
                         reset: false,
                         values: vec![],
                     }],
                 };
-                let interp = Config::default();
-                match run_engine(&ca, &interp, &cstim) {
+                match run_engine(&ca, &Config::default(), &cstim) {
                     Err(e) => {
                         v.errors.insert("comptime".into(), e);
                     }
                     Ok(t) => {
-                        for (oi, (s, r)) in t.steps[0].iter().zip(&rt.steps[vi]).enumerate() {
-                            if r.x {
+                        for (oi, (s, r)) in t.steps[0].iter().zip(&expected[ct_vec]).enumerate() {
+                            let Some(r) = r else {
                                 v.unknown += 1;
                                 continue;
-                            }
+                            };
                             if ct_skip.get(oi).copied().unwrap_or(false) {
                                 v.comptime_blind += 1;
                                 continue;
                             }
                             v.compared += 1;
-                            if s.value != r.v || !num_traits::Zero::is_zero(&s.xz) {
+                            if s.value != *r || !s.xz.is_zero() {
                                 let set = v.fails.entry(oi).or_default();
                                 if set.insert("comptime".into()) {
                                     v.details.push(format!(
-                                        "comptime: output {} with vector {vi} as constants: analyzer {} (xz {}) reference {}",
-                                        stim.outputs[oi].name,
-                                        hex(&s.value),
-                                        hex(&s.xz),
-                                        hex(&r.v)
+                                        "comptime: output {} with vector {ct_vec} as constants: analyzer {:x} (xz {:x}) reference {:x}",
+                                        stim.outputs[oi].name, s.value, s.xz, r
                                     ));
                                 }
                             }
@@ -188,6 +178,16 @@ pub fn judge(design: &Design, text: &str, stim: &Stimulus, rt: &RefTrace, config
         }
     }
     Ok(v)
+}
+
+fn expected_of(rt: &RefTrace) -> Expected {
+    rt.steps.iter().map(|row| row.iter().map(|v| if v.x { None } else { Some(v.v.clone()) }).collect()).collect()
+}
+
+fn const_text(design: &Design, stim: &Stimulus, vi: usize) -> String {
+    let (ins, _) = port_specs(design);
+    let values: Vec<(DeclId, BigUint)> = ins.iter().map(|(id, _)| *id).zip(stim.steps[vi].values.iter().cloned()).collect();
+    print_design(&constify(design, &values))
 }
 
 /// The design reduced to one output (the others become unused variables).
@@ -215,12 +215,70 @@ fn engines_sig(set: &BTreeSet<String>, errors: &BTreeMap<String, String>) -> Str
     fams.into_iter().collect::<Vec<_>>().join("+")
 }
 
-fn input_vectors(stim: &Stimulus) -> serde_json::Value {
-    json!(
-        stim.steps
-            .iter()
-            .map(|s| stim.inputs.iter().zip(&s.values).map(|(p, v)| format!("{}={}'h{:x}", p.name, p.width, v)).collect::<Vec<_>>())
-            .collect::<Vec<_>>()
+fn vectors_json(stim: &Stimulus) -> Value {
+    json!(stim.steps.iter().map(|s| s.values.iter().map(|v| format!("{v:x}")).collect::<Vec<_>>()).collect::<Vec<_>>())
+}
+
+fn ports_json(ps: &[PortSpec]) -> Value {
+    json!(ps.iter().map(|p| json!({"name": p.name, "width": p.width})).collect::<Vec<_>>())
+}
+
+fn ports_from(v: &Value) -> Vec<PortSpec> {
+    v.as_array()
+        .map(|a| {
+            a.iter()
+                .map(|p| PortSpec {
+                    name: p["name"].as_str().unwrap_or("").to_string(),
+                    width: p["width"].as_u64().unwrap_or(1) as usize,
+                })
+                .collect()
+        })
+        .unwrap_or_default()
+}
+
+fn hexv(v: &Value) -> Option<BigUint> {
+    v.as_str().and_then(|s| BigUint::parse_bytes(s.as_bytes(), 16))
+}
+
+/// Replay of a recorded reproducer (text + vectors + expected values).
+pub fn replay_recorded(p: &Value, eng: &Engines) -> Outcome {
+    let text = p["veryl"].as_str().unwrap_or("");
+    let stim = Stimulus {
+        clock: None,
+        reset: None,
+        inputs: ports_from(&p["inputs"]),
+        outputs: ports_from(&p["outputs"]),
+        steps: p["vectors"]
+            .as_array()
+            .map(|a| {
+                a.iter()
+                    .map(|row| StimStep {
+                        reset: false,
+                        values: row.as_array().map(|r| r.iter().map(|x| hexv(x).unwrap_or_default()).collect()).unwrap_or_default(),
+                    })
+                    .collect()
+            })
+            .unwrap_or_default(),
+    };
+    let expected: Expected = p["expected"].as_array().map(|a| a.iter().map(|row| row.as_array().map(|r| r.iter().map(hexv).collect()).unwrap_or_default()).collect()).unwrap_or_default();
+    let ct_vec = p["comptime_vector"].as_u64().unwrap_or(0) as usize;
+    let ct_skip: Vec<bool> = p["comptime_skip"].as_array().map(|a| a.iter().map(|x| x.as_bool().unwrap_or(false)).collect()).unwrap_or_default();
+    let root = p["root"].as_str().unwrap_or("recorded").to_string();
+    if stim.steps.is_empty() || expected.len() != stim.steps.len() {
+        return Outcome::skip("recorded reproducer is malformed");
+    }
+    let v = match judge_text(text, p["const_veryl"].as_str(), &stim, &expected, &eng.all(), ct_vec, &ct_skip) {
+        Ok(v) => v,
+        Err(r) => return Outcome::skip(format!("recorded text rejected by the analyzer ({r})")),
+    };
+    if v.fails.is_empty() && v.errors.is_empty() {
+        return Outcome::pass(hash_str(text), true, vec!["recorded".into()], text.to_string());
+    }
+    let set: BTreeSet<String> = v.fails.values().flatten().cloned().collect();
+    Outcome::fail(
+        format!("{root}/{}", engines_sig(&set, &v.errors)),
+        format!("{}\n{}\n{text}", v.details.join("\n"), v.errors.iter().map(|(k, e)| format!("{k}: {}", e.lines().next().unwrap_or(""))).collect::<Vec<_>>().join("\n")),
+        p.clone(),
     )
 }
 
@@ -239,6 +297,7 @@ pub fn one_case(d: &mut Draw, eng: &Engines, single: bool, known_rate: u32) -> O
         configs.extend(eng.cc.iter().cloned());
     }
     let rt = reference_trace(design, &stim);
+    let expected = expected_of(&rt);
     let m = design.top();
     let rhs_of = |out: DeclId| {
         m.items
@@ -253,7 +312,8 @@ pub fn one_case(d: &mut Draw, eng: &Engines, single: bool, known_rate: u32) -> O
     // kept visible at the low `known_rate`): the compile-time oracle is
     // blind for those outputs
     let ct_skip: Vec<bool> = infos.iter().map(|i| findings::has_signed_cast_of_unsigned(m, rhs_of(i.output)) && !d.chance(known_rate, 1000)).collect();
-    let v = match judge(design, &text, &stim, &rt, &configs, Some(ct_vec), &ct_skip) {
+    let ctext = const_text(design, &stim, ct_vec);
+    let v = match judge_text(&text, Some(&ctext), &stim, &expected, &configs, ct_vec, &ct_skip) {
         Ok(v) => v,
         Err(r) => {
             let code = r.errors.first().map(|e| e.0.clone()).unwrap_or_default();
@@ -263,21 +323,18 @@ pub fn one_case(d: &mut Draw, eng: &Engines, single: bool, known_rate: u32) -> O
     if !v.fails.is_empty() || !v.errors.is_empty() {
         // isolate the first failing output (or, for whole-design errors, every output in turn)
         let cands: Vec<usize> = if v.fails.is_empty() { (0..infos.len()).collect() } else { v.fails.keys().copied().collect() };
+        let all = eng.all();
         for oi in cands {
             let out = infos[oi].output;
             let iso = isolate(design, out);
             let itext = print_design(&iso);
+            let ictext = const_text(&iso, &stim, ct_vec);
             let istim = Stimulus {
                 outputs: vec![stim.outputs[oi].clone()],
                 ..stim.clone()
             };
-            let irt = RefTrace {
-                steps: rt.steps.iter().map(|r| vec![r[oi].clone()]).collect(),
-                ..Default::default()
-            };
-            let mut all = eng.fast.clone();
-            all.extend(eng.cc.iter().cloned());
-            let iv = match judge(&iso, &itext, &istim, &irt, &all, Some(ct_vec), &[ct_skip[oi]]) {
+            let iexp: Expected = expected.iter().map(|r| vec![r[oi].clone()]).collect();
+            let iv = match judge_text(&itext, Some(&ictext), &istim, &iexp, &all, ct_vec, &[ct_skip[oi]]) {
                 Ok(iv) => iv,
                 Err(r) => return Outcome::skip(format!("isolated design rejected ({r})")),
             };
@@ -293,9 +350,8 @@ pub fn one_case(d: &mut Draw, eng: &Engines, single: bool, known_rate: u32) -> O
                 findings::classify(m, expr, dest.w)
             };
             let sig = format!("{root}/{}", engines_sig(&set, &iv.errors));
-            let vectors = input_vectors(&istim);
             let msg = format!(
-                "output {}: {} = {}\nshape {} -> {}{}\n{}\n{}\nengines agreeing with the reference: {}\nvectors: {vectors}\n{itext}",
+                "output {}: {} = {}\nshape {} -> {}{}\n{}\n{}\nengines agreeing with the reference: {}\nvectors: {}\n{itext}",
                 m.decls[out].name,
                 m.decls[out].name,
                 vdesign::print::expr(m, expr),
@@ -305,21 +361,33 @@ pub fn one_case(d: &mut Draw, eng: &Engines, single: bool, known_rate: u32) -> O
                 iv.details.join("\n"),
                 iv.errors.iter().map(|(k, e)| format!("{k}: {}", e.lines().next().unwrap_or(""))).collect::<Vec<_>>().join("\n"),
                 all.iter().map(config_label).filter(|l| !set.contains(l) && !iv.errors.contains_key(l)).collect::<Vec<_>>().join(" "),
+                vectors_json(&istim),
             );
             return Outcome::fail(
                 sig,
                 msg,
-                json!({"veryl": itext, "top": "Top", "vectors": input_vectors(&istim), "comptime_vector": ct_vec,
-                       "expected": irt.steps.iter().map(|r| if r[0].x { "unknown".to_string() } else { format!("{:x}", r[0].v) }).collect::<Vec<_>>(),
-                       "details": iv.details}),
+                json!({"veryl": itext, "const_veryl": ictext, "top": "Top", "root": root,
+                       "expression": vdesign::print::expr(m, expr), "shape": shape(m, expr),
+                       "inputs": ports_json(&istim.inputs), "outputs": ports_json(&istim.outputs),
+                       "vectors": vectors_json(&istim), "comptime_vector": ct_vec, "comptime_skip": [ct_skip[oi]],
+                       "expected": iexp.iter().map(|r| r.iter().map(|x| x.as_ref().map(|v| format!("{v:x}"))).collect::<Vec<_>>()).collect::<Vec<_>>(),
+                       "observed": iv.details}),
             );
         }
         // fails only together with its neighbours
         let set: BTreeSet<String> = v.fails.values().flatten().cloned().collect();
         return Outcome::fail(
             format!("interference/{}", engines_sig(&set, &v.errors)),
-            format!("outputs disagree only when the expressions share a module:\n{}\n{}\n{text}", v.details.join("\n"), v.errors.iter().map(|(k, e)| format!("{k}: {e}")).collect::<Vec<_>>().join("\n")),
-            json!({"veryl": text, "top": "Top", "vectors": input_vectors(&stim), "details": v.details}),
+            format!(
+                "outputs disagree only when the expressions share a module:\n{}\n{}\n{text}",
+                v.details.join("\n"),
+                v.errors.iter().map(|(k, e)| format!("{k}: {e}")).collect::<Vec<_>>().join("\n")
+            ),
+            json!({"veryl": text, "const_veryl": ctext, "top": "Top", "root": "interference",
+                   "inputs": ports_json(&stim.inputs), "outputs": ports_json(&stim.outputs),
+                   "vectors": vectors_json(&stim), "comptime_vector": ct_vec, "comptime_skip": ct_skip,
+                   "expected": expected.iter().map(|r| r.iter().map(|x| x.as_ref().map(|v| format!("{v:x}"))).collect::<Vec<_>>()).collect::<Vec<_>>(),
+                   "observed": v.details}),
         );
     }
     let mut classes: Vec<String> = g.classes.iter().cloned().collect();
@@ -353,23 +421,35 @@ pub fn one_case(d: &mut Draw, eng: &Engines, single: bool, known_rate: u32) -> O
     }
     classes.sort();
     classes.dedup();
-    Outcome::pass(hash_str(&format!("{text}{:?}", input_vectors(&stim))), nt, classes, format!("{text}// vectors: {}", input_vectors(&stim)))
+    Outcome::pass(hash_str(&format!("{text}{}", vectors_json(&stim))), nt, classes, format!("{text}// vectors: {}", vectors_json(&stim)))
 }
 
-/// Development aid (`C18_DISCOVER=1`): do not stop at the first failure;
+/// Development aids.  `C18_DISCOVER=1`: do not stop at the first failure,
 /// print one example per signature and count them as classes.
-fn discover(o: Outcome) -> Outcome {
-    static SEEN: std::sync::Mutex<BTreeMap<String, u32>> = std::sync::Mutex::new(BTreeMap::new());
-    if std::env::var("C18_DISCOVER").is_err() {
+/// `C18_RECORD=<dir>`: additionally write the smallest reproducer seen per
+/// signature to `<dir>/<signature>.json` (the `recorded` payload format).
+pub fn discover(id: &str, o: Outcome) -> Outcome {
+    static SEEN: std::sync::Mutex<BTreeMap<String, (u32, usize)>> = std::sync::Mutex::new(BTreeMap::new());
+    if std::env::var(format!("{id}_DISCOVER")).is_err() {
         return o;
     }
     match o {
         Outcome::Fail(f) => {
             let mut g = SEEN.lock().unwrap();
-            let n = g.entry(f.signature.clone()).or_insert(0);
-            *n += 1;
-            if *n <= 2 {
+            let size = f.input["veryl"].as_str().map(|s| s.len()).unwrap_or(usize::MAX);
+            let e = g.entry(f.signature.clone()).or_insert((0, usize::MAX));
+            e.0 += 1;
+            if e.0 <= 2 {
                 println!("=== DISCOVERED {}\n{}", f.signature, f.message);
+            }
+            if let Ok(dir) = std::env::var(format!("{id}_RECORD")) {
+                if size < e.1 {
+                    e.1 = size;
+                    let _ = std::fs::create_dir_all(&dir);
+                    let name: String = f.signature.chars().map(|c| if c.is_ascii_alphanumeric() || c == '-' || c == '+' { c } else { '_' }).collect();
+                    let body = json!({"property": id, "sub": "recorded", "signature": f.signature, "message": f.message, "payload": f.input});
+                    let _ = std::fs::write(format!("{dir}/{name}.json"), serde_json::to_string_pretty(&body).unwrap());
+                }
             }
             Outcome::pass(hash_str(&f.message), false, vec![format!("FAIL:{}", f.signature)], String::new())
         }
@@ -379,20 +459,32 @@ fn discover(o: Outcome) -> Outcome {
 
 pub fn run(ctx: &Ctx) {
     let eng = Engines::new();
-    ctx.note("engines", json!(eng.fast.iter().chain(eng.cc.iter()).map(config_label).collect::<Vec<_>>()));
+    ctx.note("engines", json!(eng.all().iter().map(config_label).collect::<Vec<_>>()));
+    ctx.run_payloads("recorded", |p| {
+        // own thread: the analyzer state is thread-local
+        std::thread::scope(|s| {
+            std::thread::Builder::new()
+                .stack_size(16 << 20)
+                .spawn_scoped(s, || replay_recorded(p, &eng))
+                .expect("spawn")
+                .join()
+                .unwrap_or_else(|_| Outcome::fail("panic:recorded", "the replay panicked", p.clone()))
+        })
+    });
     // known shapes stay visible at a low rate in `single` only
     let envn = std::env::var("C18_CASES").ok().and_then(|s| s.parse::<usize>().ok());
-    let n1 = envn.unwrap_or(ctx.scale(700, 20_000));
     let only = std::env::var("C18_SUB").ok();
+    let n1 = envn.unwrap_or(ctx.scale(650, 20_000));
     if only.as_deref() != Some("multi") {
-    ctx.run("single", CaseCfg::cases(n1).choices(3000), |d| discover(one_case(d, &eng, true, 15)));
+        ctx.run("single", CaseCfg::cases(n1).choices(3000), |d| discover("C18", one_case(d, &eng, true, 10)));
     }
-    let n2 = envn.unwrap_or(ctx.scale(700, 20_000));
+    let n2 = envn.unwrap_or(ctx.scale(650, 20_000));
     if only.as_deref() != Some("single") {
-    ctx.run("multi", CaseCfg::cases(n2).choices(4000), |d| discover(one_case(d, &eng, false, 0)));
+        ctx.run("multi", CaseCfg::cases(n2).choices(4000), |d| discover("C18", one_case(d, &eng, false, 0)));
     }
     ctx.assume("reference = IEEE 1800-2017 §11 expression semantics for 2-state values as implemented in vdesign::eval (written from the LRM); outputs it marks unknown (X in SV) are not compared");
     ctx.assume("compile-time evaluation is observed as the value of `const K: <output type> = <expression over constants>` read back through the interpreter");
+    ctx.assume("shapes listed in vdesign::findings (confirmed defects) are replaced by the generator and counted (`excluded:*` classes); `single` keeps them at 1 % so that they stay visible as KNOWN-FINDING lines");
     ctx.finish(
         "exploration",
         "generated modules of 1-4 outputs `assign o = expr` over 2-6 ports of width 1..300 (signed 1/3), single-operator and nested expressions over every operator, 8 corner-biased vectors, under every Config::all() engine (cc on 1/8 of the designs) and compile-time evaluation with one vector as constants; non-trivial = some operand or result wider than 64 bits or a signed operand; distinct by text + vectors",
